@@ -147,38 +147,50 @@ fn box_split_off() {
     kani::cover!(true, "END: harness ran to completion");
 }
 
-/// every interior non-empty range of every length <= CAP: (len,start,end) in {(3,1,2),(4,1,2),(4,1,3),(4,2,3)}
+/// every interior non-empty range of every length <= 6 (20 shapes; the state is built per arm so that the slice length
+/// is a constant when std's `rotate_*` is symbolically executed; payloads stay symbolic). Lengths 5 and 6 matter: for
+/// len <= 4 every interior range has head_len == range_len or tail_len == range_len, where rotate_left and
+/// rotate_right coincide.
 #[kani::proof]
 #[kani::unwind(10)]
 #[kani::stub(core::ptr::copy, crate::stubs::copy_stub)]
 #[kani::stub(core::ptr::copy_nonoverlapping, crate::stubs::copy_stub)]
 fn box_split_off_interior() {
     let vals = any_vals();
-    let mut buf = new_buf();
+    let mut buf = new_buf6();
     let shape: u8 = kani::any();
-    kani::assume(shape < 4);
-    let (len, start, end) = match shape {
-        0 => (3, 1, 2),
-        1 => (4, 1, 2),
-        2 => (4, 1, 3),
-        _ => (4, 2, 3),
-    };
-    kani::cover!(shape == 1, "nearer the front (rotate_right)");
-    kani::cover!(shape == 3, "nearer the back (rotate_left)");
-    // the state is built per arm so that the slice length is a constant when `rotate_*` is symbolically executed
+    kani::assume(shape < 20);
     macro_rules! arm {
         ($len:literal, $s:literal, $e:literal) => {{
-            let mut b = unsafe { boxed(&mut buf, $len, &vals) };
+            let mut b = unsafe { boxed6(&mut buf, $len, &vals) };
             let addr0 = b.as_ptr() as usize;
             let off = b.split_off($s..$e);
             split_off_check(&vals, $len, addr0, b, off, $s, $e);
         }};
     }
+    kani::cover!(shape == 4, "len 5, 1..3: nearer the front, head_len != range_len (rotate_right)");
+    kani::cover!(shape == 8, "len 5, 2..4: nearer the back, tail_len != range_len (rotate_left)");
     match shape {
         0 => arm!(3, 1, 2),
         1 => arm!(4, 1, 2),
         2 => arm!(4, 1, 3),
-        _ => arm!(4, 2, 3),
+        3 => arm!(4, 2, 3),
+        4 => arm!(5, 1, 3),
+        5 => arm!(5, 1, 2),
+        6 => arm!(5, 1, 4),
+        7 => arm!(5, 2, 3),
+        8 => arm!(5, 2, 4),
+        9 => arm!(5, 3, 4),
+        10 => arm!(6, 1, 2),
+        11 => arm!(6, 1, 3),
+        12 => arm!(6, 1, 4),
+        13 => arm!(6, 1, 5),
+        14 => arm!(6, 2, 3),
+        15 => arm!(6, 2, 4),
+        16 => arm!(6, 2, 5),
+        17 => arm!(6, 3, 4),
+        18 => arm!(6, 3, 5),
+        _ => arm!(6, 4, 5),
     }
     kani::cover!(true, "END: harness ran to completion");
 }
@@ -190,7 +202,7 @@ fn split_off_check(vals: &[u8; NIDS], len: usize, addr0: usize, b: BumpBox<[E]>,
     let mut mo = Model::empty();
     let mut mr = Model::empty();
     let mut k = 0;
-    while k < CAP {
+    while k < 2 * CAP {
         if k < len {
             if k >= start && k < end {
                 mo.push(k as u8);
